@@ -30,7 +30,7 @@ timeout 3000 make -j16 > $B/logs/coq.log 2>&1 || { tail -30 $B/logs/coq.log; fai
 
 # 3. extraction + OCaml driver (re-extracted whenever a model file was recompiled)
 if [ ! -x $B/ml/modelrun ] || [ $V/coq/Extract/modelrun.ml -nt $B/ml/modelrun ] || [ $V/coq/Extract/Extract.v -nt $B/ml/modelrun ] \
-   || find $V/coq/Model $V/coq/Lib -name '*.vo' -newer $B/ml/modelrun | grep -q . ; then
+   || find $V/coq/Model $V/coq/Lib $V/coq/Spec -name '*.vo' -newer $B/ml/modelrun | grep -q . ; then
   ( cd $B/ml && cp $V/coq/Extract/Extract.v . && coqc -R $V/coq Cctp Extract.v > /dev/null && \
     cp $V/coq/Extract/modelrun.ml . && ocamlfind ocamlopt -O3 -w -a model.mli model.ml modelrun.ml -o modelrun ) > $B/logs/ocaml.log 2>&1 || { tail -20 $B/logs/ocaml.log; fail ocaml; }
 fi
